@@ -8,6 +8,7 @@ import (
 	"sort"
 	"strings"
 	"sync"
+	"time"
 
 	tmaps "gopkg.in/typ.v4/maps"
 	"gopkg.in/typ.v4/sets"
@@ -65,6 +66,42 @@ func runC14(c *core.Ctx) {
 	if c.Index%400 == 11 && c.Mode != "par" {
 		c14big(c)
 		return
+	}
+	if c.Index == 7 {
+		// float elements with both zeros: == decides, not the bit pattern
+		nz := math.Copysign(0, -1)
+		fs := []float64{1, nz, 2, 0, nz, 3}
+		ex := tmaps.NewSetFromSlice([]float64{0})
+		d := slices.Distinct(fs)
+		if slices.Index(fs, 0.0) != 1 || !slices.Contains([]float64{5, nz}, 0.0) || len(d) != 4 || !math.Signbit(d[1]) ||
+			len(slices.Except(fs, []float64{0})) != 3 || len(slices.ExceptSet(fs, ex)) != 3 || len(slices.Trim(fs[1:2], []float64{0})) != 0 ||
+			len(slices.CountBy(fs, func(v float64) float64 { return v })) != 4 {
+			c.Violate("floats:signed-zero", fmt.Sprintf("over %v (with -0.0 and +0.0): Index(+0.0)=%d, Distinct=%v, Except([0])=%v, ExceptSet({0})=%v, CountBy groups=%d; -0.0 == +0.0 must be treated as one value (first occurrence kept)", fs, slices.Index(fs, 0.0), d, slices.Except(fs, []float64{0}), slices.ExceptSet(fs, ex), len(slices.CountBy(fs, func(v float64) float64 { return v }))), nil)
+			return
+		}
+		c.Count("float_element_cases", 1)
+		// byte slices with bytes >= 0x80: every byte is an element of its own (not UTF-8)
+		bs := []byte{0x80, 'a', 0xC3, 'b', 0xA9, 0xFF}
+		if got := slices.Trim(bs, []byte{0xFF}); !eqSlice(got, bs[:5]) {
+			c.Violate("Trim:high-bytes", fmt.Sprintf("Trim(%v, [0xFF]) = %v", bs, got), nil)
+			return
+		}
+		if got := slices.Trim([]byte{0xC3, 'a', 'b', 0xA9}, []byte{0xC3, 0xA9}); !eqSlice(got, []byte{'a', 'b'}) {
+			c.Violate("Trim:high-bytes", fmt.Sprintf("Trim([0xC3 a b 0xA9], [0xC3 0xA9]) = %v", got), nil)
+			return
+		}
+		if got := slices.TrimLeft(bs, []byte{0x80, 0xFF}); !eqSlice(got, bs[1:]) || !eqSlice(slices.TrimRight(bs, []byte{0x80, 0xFF}), bs[:5]) || slices.Index(bs, 0xA9) != 4 {
+			c.Violate("Trim:high-bytes", fmt.Sprintf("TrimLeft/TrimRight/Index over %v with high bytes are wrong", bs), nil)
+			return
+		}
+		// element types with an Equal method: the helpers compare with ==, nothing else
+		t1 := time.Date(2024, 5, 6, 7, 8, 9, 0, time.UTC)
+		t2 := t1.In(time.FixedZone("east", 3600)) // t1.Equal(t2) but t1 != t2
+		ts := []time.Time{t1, t1, t2}
+		if slices.Index(ts, t2) != 2 || slices.Contains(ts[:2], t2) || len(slices.Distinct(ts)) != 2 || len(slices.Except(ts, []time.Time{t2})) != 2 || len(slices.Trim(ts, []time.Time{t2})) != 2 {
+			c.Violate("Equal-method-element-type", "over time.Time values that are Equal but not == (same instant, two locations): Index/Contains/Distinct/Except/Trim must compare with ==", nil)
+			return
+		}
 	}
 	alpha := []string{"a", "A", "b", "B", "c", "dd", "", "e", "E", "zz"}[:r.Range(1, 10)]
 	if r.Chance(1, 2) {
@@ -240,6 +277,19 @@ func c14nested(c *core.Ctx, in []string, r *core.Rand) bool {
 	slices.DistinctFunc(in, func(a, b string) bool { look(); return a == b })
 	if sawChanged {
 		return fail("input-changed-during-call", "a callback of Map/Fold/FoldReverse/Filter/GroupBy/DistinctFunc looked at the input slice while the helper was running and found it changed")
+	}
+	// the helpers instantiated with a DEFINED slice type: same results as with []string
+	{
+		type names []string
+		ni := names(in)
+		same := func(a names, b []string) bool { return eqSlice([]string(a), b) }
+		pred := func(v string) bool { return len(v)%2 == 1 }
+		if !same(slices.Filter(ni, pred), slices.Filter(in, pred)) || !same(slices.Distinct(ni), slices.Distinct(in)) ||
+			!same(slices.Except(ni, ni[:1]), slices.Except(in, in[:1])) || !same(slices.Trim(ni, ni[:1]), slices.Trim(in, in[:1])) ||
+			!same(slices.DistinctFunc(ni, strings.EqualFold), slices.DistinctFunc(in, strings.EqualFold)) ||
+			slices.Index(ni, in[len(in)-1]) != slices.Index(in, in[len(in)-1]) || len(slices.GroupBy(ni, func(v string) int { return len(v) })) != len(slices.GroupBy(in, func(v string) int { return len(v) })) {
+			return fail("defined-slice-type", "with a defined slice type (type names []string) Filter/Distinct/Except/Trim/DistinctFunc/Index/GroupBy give other results than with []string")
+		}
 	}
 	// the same slice changed in place and passed again: every helper must look at it afresh
 	{
